@@ -57,7 +57,7 @@ var safePathSegmentRe = regexp.MustCompile(`^[A-Za-z0-9._-]+$`)
 
 func (s *Server) getGateKeeper(r *http.Request) sts.GateKeeper {
 	source := getSourceName(r)
-	if source == "" {
+	if source == "" || !isSafeSourceName(source) {
 		return nil
 	}
 	s.lock.RLock()
@@ -421,6 +421,57 @@ func rootRelativePath(relPath string) string {
 	return relPath
 }
 
+// isSafeRelPath reports whether a file name received from a sender can be joined onto
+// one of the receiver's directories without leaving it: it must be relative, must not
+// contain a ".." segment and must name something below the directory.
+func isSafeRelPath(name string) bool {
+	if name == "" || filepath.IsAbs(name) {
+		return false
+	}
+	named := false
+	for _, segment := range strings.Split(filepath.ToSlash(name), "/") {
+		switch segment {
+		case "..":
+			return false
+		case "", ".":
+		default:
+			named = true
+		}
+	}
+	return named
+}
+
+// isSafeSourceName refuses source names that would resolve to a configured directory
+// itself or to one of its parents once they are used as a directory name.
+func isSafeSourceName(source string) bool {
+	if source == "." {
+		return false
+	}
+	for _, segment := range strings.Split(filepath.ToSlash(source), "/") {
+		if segment == ".." {
+			return false
+		}
+	}
+	return true
+}
+
+// findUnsafePartName returns the first name, rename target or predecessor among the
+// parts that must not be joined onto the stage or final directory.
+func findUnsafePartName(parts []sts.Binned) (string, bool) {
+	for _, part := range parts {
+		if !isSafeRelPath(part.GetName()) {
+			return part.GetName(), true
+		}
+		if part.GetRenamed() != "" && !isSafeRelPath(part.GetRenamed()) {
+			return part.GetRenamed(), true
+		}
+		if part.GetPrev() != "" && !isSafeRelPath(part.GetPrev()) {
+			return part.GetPrev(), true
+		}
+	}
+	return "", false
+}
+
 func (s *Server) routePartials(w http.ResponseWriter, r *http.Request) {
 	if r.Method != http.MethodGet {
 		w.WriteHeader(http.StatusMethodNotAllowed)
@@ -478,12 +529,19 @@ func (s *Server) routeValidate(w http.ResponseWriter, r *http.Request) {
 		w.WriteHeader(http.StatusBadRequest)
 		return
 	}
-	gateKeeper := s.getGateKeeper(r)
-	respMap := make(map[string]int, len(files))
 	for _, f := range files {
 		if sep != "" {
 			f.Name = filepath.Join(strings.Split(f.Name, sep)...)
 		}
+		if !isSafeRelPath(f.Name) {
+			log.Error(fmt.Errorf("invalid file name: %s", f.Name))
+			w.WriteHeader(http.StatusBadRequest)
+			return
+		}
+	}
+	gateKeeper := s.getGateKeeper(r)
+	respMap := make(map[string]int, len(files))
+	for _, f := range files {
 		respMap[f.Name] = gateKeeper.GetFileStatus(f.GetName(), f.GetStarted())
 	}
 	respJSON, _ := json.Marshal(respMap)
@@ -535,6 +593,11 @@ func (s *Server) routeData(w http.ResponseWriter, r *http.Request) {
 		return
 	}
 	parts := decoder.GetParts()
+	if name, unsafe := findUnsafePartName(parts); unsafe {
+		log.Error(fmt.Errorf("invalid file name: %s", name))
+		w.WriteHeader(http.StatusBadRequest)
+		return
+	}
 	gateKeeper := s.getGateKeeper(r)
 	gateKeeper.Prepare(parts)
 	index := 0
@@ -609,8 +672,13 @@ func (s *Server) routeDataRecovery(w http.ResponseWriter, r *http.Request) {
 		s.handleError(w, err)
 		return
 	}
-	gateKeeper := s.getGateKeeper(r)
 	parts := decoder.GetParts()
+	if name, unsafe := findUnsafePartName(parts); unsafe {
+		log.Error(fmt.Errorf("invalid file name: %s", name))
+		w.WriteHeader(http.StatusBadRequest)
+		return
+	}
+	gateKeeper := s.getGateKeeper(r)
 	n := gateKeeper.Received(parts)
 	log.Debug("STS data-recovery request complete:", "source=", source, "partsReceived=", n)
 	w.Header().Add(HeaderPartCount, strconv.Itoa(n))
